@@ -3,7 +3,7 @@
 Require Extraction.
 Require Import ExtrOcamlBasic.
 From Coq Require Import Strings.Byte.
-From Sftp Require Import Base.GoSem Mode.FileMode Wire.Prim Wire.Packets Wire.ClientParse Srv.ReadOnly Srv.Negotiate Xfer.Transfer Path.Clean Err.Status Srv.ReqServer Srv.Listing.
+From Sftp Require Import Base.GoSem Mode.FileMode Wire.Prim Wire.Packets Wire.ClientParse Srv.ReadOnly Srv.Negotiate Xfer.Transfer Path.Clean Err.Status Srv.ReqServer Srv.Listing Lin.Linearize.
 Extraction Language OCaml.
 Extraction "model.ml"
   Byte.of_bits Byte.to_bits
@@ -16,4 +16,5 @@ Extraction "model.ml"
   supported run_set recv_version has_extension ext_reaction sync_sends version_reply
   readAt writeTo writeAt readFromSeq readFromConc readFrom_uses_conc readfrom_fixed writeto_fixed seek pattern chunks
   clean clean_with_base clean_path to_local_path status_code perm_fixed normalise dispatch realpath_default
-  client_list scripted filelist_step.
+  client_list scripted filelist_step
+  lin_check.
